@@ -1,20 +1,39 @@
 /-
   C07 — binary decoders implement their specifications.
 
-  The real decoders (cbor_parser.hpp, msgpack_parser.hpp, ubjson_parser.hpp, bson_parser.hpp) are not
-  modelled; on every run their outcome (value / error) is compared with reference decoders written in
-  Lean from the specifications (JV.Spec.Cbor: RFC 8949; JV.Spec.BinFormats: MessagePack, UBJSON draft 12,
-  BSON 1.1), executed by the driver on inputs produced by independent reference encoders in every legal
-  width and form, their mutations, every strict prefix, and every 1–2 (thorough: sampled 3) byte string.
+  PROVED (this file; helper lemmas in JV/Proofs/CborParser.lean):
+    * the real CBOR decoder's logic — JV.Model.CborParser, a functional transcription of cbor_parser.hpp (read_item, read_uint64,
+      read_int64, read_size, read_text_string_view / read_byte_string_view, iterate_string_chunks, read_double, begin/end_array/object
+      with the nesting-depth check, the parse_mode state stack flattened into structural recursion) for the item grammar without tags,
+      stringrefs and typed arrays — REFINES the RFC 8949 reference decoder JV.Spec.Cbor on every byte string, every fuel and every
+      max_nesting_depth (`cbor_parser_model_refines_spec`, relation `Agrees`, value mapping `toBV textKey`):
+        - it accepts only well-formed input, and the value it yields is the value the RFC assigns (`model_value_is_spec_value`,
+          `model_accepts_only_wellformed`, `model_accepts_text_keyed`);
+        - it rejects every ill-formed input (`model_rejects_illformed`) and accepts every well-formed input the reference judges,
+          except for three documented outcomes that carry no claim about well-formedness: `max_nesting_depth_exceeded` (an implementation
+          limit), `number_too_large` (-1-n below INT64_MIN) and `skip` (a tag: outside the modelled fragment) (`wellformed_is_accepted`);
+      fragments stated separately for all inputs: `model_head_is_spec_head`, `model_int_is_spec_int`, `model_definite_string_is_spec`,
+      `model_rejects_reserved`, `model_truncated_head_is_eof`, `model_break_outside_indefinite_is_error`, `model_error_codes`.
+    * facts about the reference itself that the property names: `head_roundtrip`, `int_roundtrip`, `reserved_rejected`,
+      `reserved_simple_rejected`, `truncated_head_rejected`, `half_sign_symmetric`, `half_normal`.
 
-  Proved here: facts about the CBOR reference that the property names — every integer the format can
-  express is read back exactly from the head the encoder model writes (all five widths, both majors),
-  reserved additional-information values are ill-formed for every major type and continuation, a break
-  outside an indefinite item is ill-formed, a head cut short is ill-formed.
+  OBSERVED on every run (checks/c07.py):
+    * model = real code: stream `cbor-decoder-model` feeds the same bytes to the real decoder (`bin dec cbor`) and to the model
+      (`bin mdec cbor`): identical error code, or identical value after the json_decoder's member-list normalisation; inputs with tags
+      answer `skip`. Non-text map keys (rendered to text by basic_generic_to_json_visitor) are modelled for integers, booleans, null,
+      undefined and byte strings and tied; the reference leaves them unjudged.
+    * real code = reference: the real CBOR / MessagePack / UBJSON / BSON decoders against the reference decoders written in Lean from the
+      specifications (JV.Spec.Cbor, JV.Spec.BinFormats) on reference encodings in every legal width and form, mutations, every strict
+      prefix, every 1–2 (thorough: sampled 3) byte string. The MessagePack, UBJSON and BSON decoders themselves are not modelled.
+  NOT proved: that the model never runs out of fuel with `decode`'s fuel 2·|input|+2 (`Fail.fuel` would print `fuel`, which never
+  equals a real outcome: the tie observes it does not happen); the float32→double widening is taken as the IEEE function f32ToF64.
 -/
 import JV.Spec.Cbor
 import JV.Spec.BinFormats
 import JV.Model.Cbor
+import JV.Model.CborParser
+import JV.Proofs.CborParser
+import JV.Extracted.ErrorCodes
 namespace JV.Props.C07
 open JV Spec.Cbor Model.Cbor
 
@@ -146,5 +165,199 @@ example : Spec.Msgpack.decode [0x92, 0xcc, 0xff, 0xd0, 0x80] = .ok (.arr [.int 2
 example : Spec.Msgpack.decode [0xc1] = .illformed := by rfl
 example : Spec.Bson.decode [0x0c, 0, 0, 0, 0x10, 0x61, 0, 1, 0, 0, 0, 0] = .ok (.map [([0x61], .int 1 "")]) [] := by rfl
 example : Spec.Bson.decode [0x0d, 0, 0, 0, 0x10, 0x61, 0, 1, 0, 0, 0, 0] = .illformed := by rfl   -- size mismatch
+
+/-! ### the real decoder's logic (JV.Model.CborParser) refines the RFC 8949 reference -/
+section parser_model
+open Model.CborParser
+
+/-- THE REFINEMENT. For every byte string and every `max_nesting_depth`, the outcome of the cbor_parser model and the outcome of the RFC 8949
+    reference decoder are related by `Agrees (toBV textKey)`:
+      model value v, rest  /  reference value w, rest2   ⇒  toBV textKey v = some w ∧ rest = rest2   (same value, same bytes consumed)
+      model value v        /  reference unjudged          ⇒  toBV textKey v = none                    (v has a map key that is not a text string)
+      model value          /  reference ill-formed        ⇒  impossible
+      model failure f      /  reference value             ⇒  f is max_nesting_depth_exceeded, number_too_large or skip (tag)
+    where `toBV textKey` is the documented value mapping: uint n ↦ int n, nint i ↦ int i, half / double / text / bytes unchanged with the
+    empty tag, undefined ↦ undef, arrays and maps member-wise with text keys. -/
+theorem cbor_parser_model_refines_spec (maxDepth : Nat) (bs : Bytes) :
+    Agrees (toBV textKey) (Model.CborParser.decode maxDepth bs) (Spec.Cbor.decode bs) :=
+  decode_agrees maxDepth bs
+
+/-- the same at every fuel and nesting depth, for items in any position -/
+theorem cbor_parser_item_refines_spec (maxDepth fuel depth : Nat) (s : Bytes) :
+    Agrees (toBV textKey) (Model.CborParser.item maxDepth fuel depth s) (Spec.Cbor.item fuel none s) :=
+  (agree_all maxDepth fuel).1 depth s
+
+/-- whenever both decoders produce a value it is the same value and the same number of bytes was consumed -/
+theorem model_value_is_spec_value (maxDepth : Nat) (bs : Bytes) (v : Item) (rest : Bytes) (w : BV) (rest2 : Bytes)
+    (hm : Model.CborParser.decode maxDepth bs = .ok v rest) (hs : Spec.Cbor.decode bs = .ok w rest2) :
+    toBV textKey v = some w ∧ rest = rest2 := by
+  have h := decode_agrees maxDepth bs
+  simpa [hm, hs, Agrees] using h
+
+/-- the model never accepts an ill-formed input -/
+theorem model_accepts_only_wellformed (maxDepth : Nat) (bs : Bytes) (v : Item) (rest : Bytes)
+    (hm : Model.CborParser.decode maxDepth bs = .ok v rest) : Spec.Cbor.decode bs ≠ .illformed := by
+  intro hs
+  have h := decode_agrees maxDepth bs
+  simp [hm, hs, Agrees] at h
+
+/-- an accepted input whose map keys are all text strings is well-formed and decodes to exactly the value the RFC assigns -/
+theorem model_accepts_text_keyed (maxDepth : Nat) (bs : Bytes) (v : Item) (rest : Bytes) (w : BV)
+    (hm : Model.CborParser.decode maxDepth bs = .ok v rest) (hv : toBV textKey v = some w) : Spec.Cbor.decode bs = .ok w rest := by
+  have h := decode_agrees maxDepth bs
+  cases hs : Spec.Cbor.decode bs <;> simp_all [Agrees]
+
+/-- every ill-formed input is rejected (or, if it starts with a tag, outside the fragment) -/
+theorem model_rejects_illformed (maxDepth : Nat) (bs : Bytes) (hs : Spec.Cbor.decode bs = .illformed) :
+    ∃ f, Model.CborParser.decode maxDepth bs = .fail f := by
+  have h := decode_agrees maxDepth bs
+  cases hm : Model.CborParser.decode maxDepth bs with
+  | ok v rest => simp [hm, hs, Agrees] at h
+  | fail f => exact ⟨f, rfl⟩
+
+/-- every input the reference accepts is accepted with the same value, unless the nesting limit, the int64 range or a tag intervenes -/
+theorem wellformed_is_accepted (maxDepth : Nat) (bs : Bytes) (w : BV) (rest : Bytes) (hs : Spec.Cbor.decode bs = .ok w rest) :
+    (∃ v, Model.CborParser.decode maxDepth bs = .ok v rest ∧ toBV textKey v = some w) ∨
+    Model.CborParser.decode maxDepth bs = .fail (.err .maxNestingDepthExceeded) ∨
+    Model.CborParser.decode maxDepth bs = .fail (.err .numberTooLarge) ∨
+    Model.CborParser.decode maxDepth bs = .fail .skip := by
+  have h := decode_agrees maxDepth bs
+  cases hm : Model.CborParser.decode maxDepth bs with
+  | ok v r =>
+    simp only [hm, hs, Agrees] at h
+    exact Or.inl ⟨v, by rw [h.2], h.1⟩
+  | fail f =>
+    simp only [hm, hs, Agrees] at h
+    cases f with
+    | skip => simp
+    | fuel => simp [Fail.lenient] at h
+    | err e => cases e <;> simp_all [Fail.lenient]
+
+/-- `read_uint64` is the RFC's argument reader for every initial byte and every tail: additional information 0..23 direct, 24..27 the
+    following 1/2/4/8 bytes big-endian (missing bytes → unexpected_eof), 28..31 → unknown_type -/
+theorem model_head_is_spec_head (ib : Nat) (s : Bytes) :
+    readUint64 (ib :: s) =
+      if 28 ≤ ib % 32 then .fail (.err .unknownType)
+      else match readArg (ib % 32) s with | some (n, r) => .ok n r | none => .fail (.err .unexpectedEof) :=
+  readUint64_eq ib s
+
+/-- majors 0 and 1, every width: n and -1-n exactly as the RFC says, over the full 64-bit argument; the only deviation is
+    `number_too_large` for -1-n below -2^63 (which needs the 8-byte form) -/
+theorem model_int_is_spec_int (maxDepth fuel depth ib : Nat) (s : Bytes) (n : Nat) (r : Bytes) (hai : ib % 32 < 28)
+    (hr : readArg (ib % 32) s = some (n, r)) :
+    (ib / 32 = 0 → Model.CborParser.item maxDepth (fuel + 1) depth (ib :: s) = .ok (.uint n) r ∧
+                   Spec.Cbor.item (fuel + 1) none (ib :: s) = .ok (.int n "") r) ∧
+    (ib / 32 = 1 → Spec.Cbor.item (fuel + 1) none (ib :: s) = .ok (.int (-1 - (n : Int)) "") r ∧
+                   Model.CborParser.item maxDepth (fuel + 1) depth (ib :: s) =
+                     if ib % 32 = 27 ∧ n > 2 ^ 63 - 1 then .fail (.err .numberTooLarge) else .ok (.nint (-1 - (n : Int))) r) := by
+  have h28 : ¬ 28 ≤ ib % 32 := by omega
+  have h1 : ¬ (ib % 32 ≥ 28 ∧ ib % 32 ≤ 30) := by omega
+  have h2 : ¬ ib % 32 = 31 := by omega
+  constructor
+  · intro hm
+    have e7 : ¬ ib / 32 = 7 := by omega
+    simp [Model.CborParser.item, Spec.Cbor.item, hm, e7, readUint64_eq, h28, h1, h2, hr]
+  · intro hm
+    have e7 : ¬ ib / 32 = 7 := by omega
+    constructor
+    · by_cases hn : n ≥ 2 ^ 63 <;> simp [Spec.Cbor.item, hm, e7, h1, h2, hr, hn]
+    · simp only [Model.CborParser.item, hm, readInt64_eq, h28, hr]
+      by_cases hbig : ib % 32 = 27 ∧ n > 2 ^ 63 - 1 <;> simp [hbig]
+
+/-- definite text and byte strings: exactly the RFC's outcome — the `n` bytes that follow the head (unexpected_eof / ill-formed if fewer
+    remain), text additionally checked by `unicode_traits::validate`, which accepts exactly well-formed UTF-8 (C02 `validator_is_rfc3629`) -/
+theorem model_definite_string_is_spec (maxDepth fuel depth ib : Nat) (s : Bytes) (n : Nat) (s1 : Bytes) (hai : ib % 32 < 28)
+    (hr : readArg (ib % 32) s = some (n, s1)) :
+    (ib / 32 = 2 → Model.CborParser.item maxDepth (fuel + 1) depth (ib :: s) =
+        (if s1.length < n then .fail (.err .unexpectedEof) else .ok (.bytes (s1.take n)) (s1.drop n)) ∧
+      Spec.Cbor.item (fuel + 1) none (ib :: s) = (if s1.length < n then .illformed else .ok (.bytes (s1.take n) "") (s1.drop n))) ∧
+    (ib / 32 = 3 → Model.CborParser.item maxDepth (fuel + 1) depth (ib :: s) =
+        (if s1.length < n then .fail (.err .unexpectedEof)
+         else if Spec.Rfc8259.validUtf8 (s1.take n) then .ok (.str (s1.take n)) (s1.drop n) else .fail (.err .invalidUtf8TextString)) ∧
+      Spec.Cbor.item (fuel + 1) none (ib :: s) =
+        (if s1.length < n then .illformed
+         else if Spec.Rfc8259.validUtf8 (s1.take n) then .ok (.str (s1.take n) "") (s1.drop n) else .illformed)) := by
+  have h28 : ¬ 28 ≤ ib % 32 := by omega
+  have h1 : ¬ (ib % 32 ≥ 28 ∧ ib % 32 ≤ 30) := by omega
+  have h2 : ¬ ib % 32 = 31 := by omega
+  constructor
+  · intro hm
+    have e7 : ¬ ib / 32 = 7 := by omega
+    by_cases hl : s1.length < n <;>
+      simp [Model.CborParser.item, Spec.Cbor.item, hm, e7, readString, readSize, readUint64_eq, h28, h1, h2, hr, hl]
+  · intro hm
+    have e7 : ¬ ib / 32 = 7 := by omega
+    by_cases hl : s1.length < n
+    · simp [Model.CborParser.item, Spec.Cbor.item, hm, e7, readString, readSize, readUint64_eq, h28, h1, h2, hr, hl]
+    · cases hu : Spec.Rfc8259.validUtf8 (s1.take n) <;>
+        simp [Model.CborParser.item, Spec.Cbor.item, hm, e7, readString, readSize, readUint64_eq, badUtf8_eq, h28, h1, h2, hr, hl, hu]
+
+/-- reserved additional information 28..30 (and 31 where no indefinite form exists) is `unknown_type`: in every argument read, and for
+    items of majors 0–3 and 7 wherever they stand (majors 4/5 first count the nesting level) -/
+theorem model_rejects_reserved (ib : Nat) (s : Bytes) (h : 28 ≤ ib % 32) :
+    readUint64 (ib :: s) = .fail (.err .unknownType) ∧ readInt64 (ib :: s) = .fail (.err .unknownType) ∧
+    (∀ maxDepth fuel depth, (ib / 32 = 0 ∨ ib / 32 = 1 ∨ ((ib / 32 = 2 ∨ ib / 32 = 3) ∧ ib % 32 ≠ 31) ∨ ib / 32 = 7) →
+      Model.CborParser.item maxDepth (fuel + 1) depth (ib :: s) = .fail (.err .unknownType)) := by
+  refine ⟨by simp [readUint64_eq, h], by simp [readInt64_eq, h], ?_⟩
+  intro maxDepth fuel depth hm
+  rcases hm with hm | hm | ⟨hm | hm, h31⟩ | hm
+  · simp [Model.CborParser.item, hm, readUint64_eq, h]
+  · simp [Model.CborParser.item, hm, readInt64_eq, h]
+  · simp [Model.CborParser.item, hm, readString, readSize, readUint64_eq, h, h31]
+  · simp [Model.CborParser.item, hm, readString, readSize, readUint64_eq, h, h31]
+  · have : ib % 32 ≠ 20 ∧ ib % 32 ≠ 21 ∧ ib % 32 ≠ 22 ∧ ib % 32 ≠ 23 ∧ ib % 32 ≠ 25 ∧ ib % 32 ≠ 26 ∧ ib % 32 ≠ 27 := by omega
+    simp [Model.CborParser.item, hm, this]
+
+/-- truncation is never a value: the empty input, and a head of majors 0–5 whose argument bytes are missing, are `unexpected_eof`
+    (for majors 4/5 provided the nesting limit is not hit first) -/
+theorem model_truncated_head_is_eof (maxDepth fuel depth major ai : Nat) (hm : major < 6) (hai : 24 ≤ ai ∧ ai ≤ 27) (hd : depth + 1 ≤ maxDepth) :
+    Model.CborParser.item maxDepth (fuel + 1) depth [] = .fail (.err .unexpectedEof) ∧
+    Model.CborParser.item maxDepth (fuel + 1) depth [major * 32 + ai] = .fail (.err .unexpectedEof) := by
+  refine ⟨by simp [Model.CborParser.item], ?_⟩
+  have h1 : (major * 32 + ai) / 32 = major := by omega
+  have h2 : (major * 32 + ai) % 32 = ai := by omega
+  have hr : readArg ai [] = none := by
+    unfold readArg
+    rcases (by omega : ai = 24 ∨ ai = 25 ∨ ai = 26 ∨ ai = 27) with e | e | e | e <;> simp [e]
+  have h28 : ¬ 28 ≤ ai := by omega
+  have h31 : ¬ ai = 31 := by omega
+  have hdd : ¬ depth + 1 > maxDepth := by omega
+  generalize major * 32 + ai = ib at h1 h2
+  rcases (by omega : major = 0 ∨ major = 1 ∨ major = 2 ∨ major = 3 ∨ major = 4 ∨ major = 5) with e | e | e | e | e | e <;> rw [e] at h1 <;>
+    simp [Model.CborParser.item, h1, h2, readString, readSize, readUint64_eq, readInt64_eq, hr, h28, h31, hdd]
+
+/-- a break (0xff) where an item is expected — at the root, as a definite array element, as a map value — is `unknown_type`; it ends an
+    indefinite array or map only at an element / key position -/
+theorem model_break_outside_indefinite_is_error (maxDepth fuel depth : Nat) (s : Bytes) :
+    Model.CborParser.item maxDepth (fuel + 1) depth (0xff :: s) = .fail (.err .unknownType) ∧
+    Model.CborParser.itemsIndef maxDepth (fuel + 1) depth (0xff :: s) = .ok [] s ∧
+    Model.CborParser.membersIndef maxDepth (fuel + 1) depth (0xff :: s) = .ok [] s := by
+  simp [Model.CborParser.item, Model.CborParser.itemsIndef, Model.CborParser.membersIndef]
+
+/-- the model's error classes carry the numbers of `enum class cbor_errc` as extracted from cbor_error.hpp -/
+theorem model_error_codes (e : Err) : (e.name, e.code) ∈ JV.Extracted.cborErrc := by
+  cases e <;> decide
+
+/-! non-vacuity: kernel-evaluated runs of the model next to the reference -/
+example : Model.CborParser.decode 1024 [0x83, 0x01, 0x20, 0xf6] = .ok (.arr [.uint 1, .nint (-1), .null]) [] := by rfl
+example : toBV textKey (.arr [.uint 1, .nint (-1), .null]) = some (.arr [.int 1 "", .int (-1) "", .null]) := by rfl
+example : Model.CborParser.decode 1024 [0x9f, 0x01, 0xff] = .ok (.arr [.uint 1]) [] := by rfl
+example : Model.CborParser.decode 1024 [0xbf, 0x61, 0x61, 0x5f, 0x41, 0x01, 0xff, 0xff] = .ok (.map [(.str [0x61], .bytes [1])]) [] := by rfl
+example : Model.CborParser.decode 1024 [0xff] = .fail (.err .unknownType) := by rfl
+example : Model.CborParser.decode 1024 [0x5f, 0x61, 0x61, 0xff] = .fail (.err .illegalChunkedString) := by rfl
+example : Model.CborParser.decode 1024 [0x61, 0xff] = .fail (.err .invalidUtf8TextString) := by rfl
+example : Model.CborParser.decode 1024 [0x7f, 0x61, 0xc3, 0x61, 0xa9, 0xff] = .fail (.err .invalidUtf8TextString) := by rfl   -- é cut across chunks
+example : Spec.Cbor.decode [0x7f, 0x61, 0xc3, 0x61, 0xa9, 0xff] = .illformed := by rfl
+example : Model.CborParser.decode 1024 [0x3b, 0x80, 0, 0, 0, 0, 0, 0, 0] = .fail (.err .numberTooLarge) := by rfl
+example : Model.CborParser.decode 1024 [0x3b, 0x7f, 0xff, 0xff, 0xff, 0xff, 0xff, 0xff, 0xff] = .ok (.nint (-9223372036854775808)) [] := by rfl
+example : Model.CborParser.decode 1024 [0x1c] = .fail (.err .unknownType) := by rfl
+example : Model.CborParser.decode 1024 [0x19, 0x01] = .fail (.err .unexpectedEof) := by rfl
+example : Model.CborParser.decode 2 [0x81, 0x81, 0x81, 0x00] = .fail (.err .maxNestingDepthExceeded) := by rfl
+example : Model.CborParser.decode 1024 [0xc1, 0x00] = .fail .skip := by rfl
+example : Model.CborParser.decode 1024 [0xa1, 0x01, 0x02] = .ok (.map [(.uint 1, .uint 2)]) [] := by rfl
+example : toBV textKey (.map [(.uint 1, .uint 2)]) = none ∧ Spec.Cbor.decode [0xa1, 0x01, 0x02] = .unjudged := by constructor <;> rfl
+example : toBV renderKey (.map [(.bool true, .uint 2)]) = some (.map [([116, 114, 117, 101], .int 2 "")]) := by rfl   -- the adaptor renders the key `true`
+
+end parser_model
 
 end JV.Props.C07
